@@ -182,7 +182,7 @@ class Solver:
             f.write("(set-logic ALL)\n" + smt2)
             path = f.name
         try:
-            out = subprocess.run([exe, "--tlimit", str(timeout_s * 1000), path], capture_output=True, text=True, timeout=timeout_s + 5)
+            out = subprocess.run([exe, "--strings-exp", "--tlimit", str(timeout_s * 1000), path], capture_output=True, text=True, timeout=timeout_s + 5)
             first = (out.stdout.strip().splitlines() or ["?"])[0]
             return first
         except Exception as e:  # noqa
@@ -846,6 +846,18 @@ class Executor:
                 st.vars[nm] = fresh(nm)
             elif isinstance(old, (z3.BoolRef, bool)):
                 st.vars[nm] = fresh(nm, B)
+            elif is_sym(old) and z3.is_string(old):
+                st.vars[nm] = z3.String(f"{nm}!{next(_fresh_counter)}")
+            elif isinstance(old, (tuple, list)) and old and all(isinstance(x, SSeq) for x in old):
+                outs = []
+                for j_, x in enumerate(old):
+                    arr = z3.Const(f"{nm}{j_}_arr!{next(_fresh_counter)}", z3.ArraySort(I, x.elem_sort))
+                    ln = fresh(f"{nm}{j_}_len")
+                    st.assume(ln >= 0)
+                    outs.append(SSeq.from_array(ln, arr, kind=x.kind, name=f"{nm}{j_}"))
+                st.vars[nm] = type(old)(outs)
+            elif type(old).__name__ in ("Opaque", "Record") or hasattr(old, "pyvc_havoc"):
+                st.vars[nm] = old.pyvc_havoc() if hasattr(old, "pyvc_havoc") else old  # untracked objects stay untracked
             elif old is None and nm not in st.vars:
                 # first assigned inside the loop: its value before the loop is irrelevant
                 st.vars.pop(nm, None)
